@@ -112,6 +112,10 @@ def run_pipes(prop, tier, seed, replay, stages, rule, nontrivial, run=None, fini
                         continue
                 elif cl not in CLAUSES[prop]:
                     continue
+            if cl == "tilejson_of_operation":
+                # beyond the listed properties: the document an operation hands on (TileJson.tla merge / limit rules)
+                run.observation("tilejson_of_operation", {"vpl": fl["case"]["vpl"]})
+                continue
             if cl == "declared":
                 run.observation("declared_compression", {"vpl": fl["case"]["vpl"], "declared": fl["case"].get("declared")})
                 continue
@@ -136,9 +140,11 @@ def run_pipes(prop, tier, seed, replay, stages, rule, nontrivial, run=None, fini
         n = 0
         with open(ct, "w") as f:
             for ln in open(t):
-                if '"kids":[{' not in ln.replace(" ", ""):
+                if '"kids":[{"built"' not in ln.replace(" ", ""):       # (the top-level kids of a mixed tree, not tj.kids)
                     continue
                 r = json.loads(ln)
+                if not r.get("kids"):
+                    continue
                 hit = next((a for a in r["lookups"] if a[3] > 0), None)
                 if r.get("built") != 1 or hit is None or not all(k["built"] == 1 for k in r["kids"]):
                     continue
